@@ -119,9 +119,12 @@ impl LunarYear {
   pub fn get_months(&self) -> Vec<LunarMonth> {
     let mut l: Vec<LunarMonth> = Vec::new();
     let mut m: LunarMonth = LunarMonth::from_ym(self.year, 1);
-    while m.get_year() == self.year {
-      l.push(m);
-      m = m.next(1);
+    let n: usize = self.get_month_count();
+    for i in 0..n {
+      if i > 0 {
+        m = m.next(1);
+      }
+      l.push(m.clone());
     }
     l
   }
